@@ -29,9 +29,14 @@ MAX_STACK = 4
 # Money
 
 class MoneySys:
-    def __init__(self, n):
+    """with extra=True: one more converter that never was updated (it holds
+    no rate: while it is the most recent one nothing converts), and a
+    sub-class of Money whose registry is a stack of its own"""
+
+    def __init__(self, n, extra=False):
         from quantity.money import Money, MoneyConverter
         self.Money = Money
+        self.extra = extra
         self.eur = Money.register_currency('EUR')
         self.usd = Money.register_currency('USD')
         self.jpy = Money.register_currency('JPY')
@@ -45,10 +50,24 @@ class MoneySys:
                 specs.append((self.tnd, O.dec('D:3.2'), 1))
             c.update(None, specs)
             self.convs.append(c)
+        self.empty = None
+        self.Sub = None
+        self.substack = []
+        if extra:
+            self.empty = n
+            self.convs.append(MoneyConverter(self.eur,
+                                             lambda: date(2020, 3, 15)))
+
+            class Voucher(Money):
+                pass
+            self.Sub = Voucher
         self.stack = []        # model: indices, last = most recent
         self.open = []         # harness: open with-blocks (indices)
 
     def key(self):
+        if self.extra:
+            return (tuple(self.stack), tuple(self.open),
+                    tuple(self.substack))
         return (tuple(self.stack), tuple(self.open))
 
     def apply(self, ev):
@@ -60,12 +79,42 @@ class MoneySys:
             Money.register_converter(self.convs[ev[1]])
             self.stack.append(ev[1])
         elif kind == 'enter':
-            r = self.convs[ev[1]].__enter__()
+            try:
+                r = self.convs[ev[1]].__enter__()
+            except Exception as exc:
+                # the block is not entered (and never left): the converter
+                # must not be active
+                out.append(('C12:money:enter-raised', f"entering the block "
+                            f"of c{ev[1]} raised {type(exc).__name__}: "
+                            f"{exc}"))
+                return out + self.probe()
             if r is not self.convs[ev[1]]:
                 out.append(('C12:money:enter-value', f"__enter__ returned "
                             f"{type(r).__name__}"))
             self.stack.append(ev[1])
             self.open.append(ev[1])
+        elif kind == 'regsub':
+            self.Sub.register_converter(self.convs[ev[1]])
+            self.substack.append(ev[1])
+        elif kind == 'unregsub':
+            i = ev[1]
+            ok = bool(self.substack) and self.substack[-1] == i
+            try:
+                self.Sub.remove_converter(self.convs[i])
+                raised = False
+            except Exception:
+                raised = True
+            if ok:
+                self.substack.pop()
+                if raised:
+                    out.append(('C12:money:subclass:unregister-top-raised',
+                                f"unregistering the most recent converter "
+                                f"c{i} of the Money sub-class raised"))
+            elif not raised:
+                out.append(('C12:money:subclass:unregister-not-top',
+                            f"unregistering c{i}, which is not the most "
+                            "recent converter of the Money sub-class, did "
+                            "not raise"))
         elif kind == 'unreg':
             i = ev[1]
             ok = bool(self.stack) and self.stack[-1] == i
@@ -125,6 +174,34 @@ class MoneySys:
             out.append(('C12:money:registered-list',
                         f"registered_converters() = {idx}, model "
                         f"{list(reversed(self.stack))}"))
+        if self.Sub is not None:
+            got = list(self.Sub.registered_converters())
+            want = [self.convs[i] for i in reversed(self.substack)]
+            if len(got) != len(want) or any(a is not b
+                                            for a, b in zip(got, want)):
+                idx = [self.convs.index(c) if c in self.convs else '?'
+                       for c in got]
+                out.append(('C12:money:subclass:registered-list',
+                            "registered_converters() of the Money sub-class "
+                            f"= {idx}, model "
+                            f"{list(reversed(self.substack))}"))
+        if self.stack and self.stack[-1] == self.empty:
+            # the most recent converter decides, and it has no rate at all
+            for a, b in ((self.eur, self.usd), (self.usd, self.jpy),
+                         (self.eur, self.tnd), (self.usd, self.eur)):
+                try:
+                    r = Money(F(10), a).convert(b)
+                    out.append(('C12:money:older-converter-answers',
+                                f"10 {a.symbol} -> {b.symbol} = {r!r} "
+                                "although the most recent converter holds "
+                                "no rate"))
+                except quantity.UnitConversionError:
+                    pass
+                except Exception as exc:
+                    out.append(('C12:money:convert-unknown',
+                                f"{a.symbol} -> {b.symbol}: "
+                                f"{type(exc).__name__}"))
+            return out
         # a quantity that was itself the result of a conversion under an
         # earlier state of the registry is converted back under the current
         # one
@@ -214,6 +291,10 @@ class MoneySys:
                 evs.append(['reg', i])
                 evs.append(['enter', i])
             evs.append(['unreg', i])
+            if self.Sub is not None:
+                if len(self.substack) < 2:
+                    evs.append(['regsub', i])
+                evs.append(['unregsub', i])
         if self.open:
             evs.append(['leave'])
             evs.append(['leave_exc'])
@@ -418,7 +499,12 @@ class TableSys(GenericSys):
 
 # ---------------------------------------------------------------------------
 
-SYSTEMS = {'money': MoneySys, 'generic': GenericSys, 'table': TableSys}
+def MoneySysX(n):
+    return MoneySys(n, extra=True)
+
+
+SYSTEMS = {'money': MoneySys, 'moneyx': MoneySysX, 'generic': GenericSys,
+           'table': TableSys}
 
 
 def execute(sysname, n, hist):
@@ -628,12 +714,13 @@ def run(tier, seed):
     total = Stats()
     if tier == 'thorough':
         plan = [('money', 3, 8, True), ('money', 2, 5, False),
+                ('moneyx', 2, 6, True), ('moneyx', 1, 4, False),
                 ('generic', 4, 8, True), ('generic', 3, 5, False),
                 ('table', 4, 8, True), ('table', 3, 5, False)]
         pdepth = 3
     else:
         plan = [('money', 2, 6, True), ('money', 3, 4, True),
-                ('money', 2, 3, False),
+                ('money', 2, 3, False), ('moneyx', 2, 4, True),
                 ('generic', 3, 6, True), ('generic', 3, 3, False),
                 ('table', 3, 6, True), ('table', 3, 3, False)]
         pdepth = 2
@@ -652,7 +739,9 @@ def run(tier, seed):
     total.sample({'program': progs[min(7, len(progs) - 1)]})
     return total, dict(
         rule="money: events {register ci, unregister ci, enter ci, leave, "
-             "leave by exception} (stack bounded by 4), explicit-state BFS "
+             "leave by exception} (stack bounded by 4; system moneyx adds a "
+             "converter that never was updated and register/unregister at a "
+             "sub-class of Money, whose registry is separate), explicit-state BFS "
              "with state = (converter list, open blocks), every transition "
              "executed in a fork; plus all histories without merging to a "
              "smaller depth; generic type: {register fi, remove fi} over "
